@@ -560,6 +560,10 @@ fn collect_runtime_types(
                 tast::Ty::TStruct { name: _ } => {
                     // Vec types are handled as slices, no special collection needed
                 }
+                tast::Ty::TVec { elem } => {
+                    // the slice itself needs no declaration, but its element type may
+                    self.collect_type(elem);
+                }
                 tast::Ty::TApp { ty, args } => {
                     // Vec types are handled as slices, no special collection needed
                     self.collect_type(ty);
